@@ -138,22 +138,28 @@ def norm(v):
 
 
 def snapshot(dev):
-    """every readable value of every object of the device, through ReadProperty at object level"""
-    out = {}
+    """every readable value of every object of the device, through ReadProperty at object level:
+    [(label, value picture)] in a fixed order (tuple-keyed dictionaries are slow under the engine)"""
+    out = []
     for obj in dev.iter_objects():
         oid = obj.objectIdentifier
+        is_dev = oid[0] == 'device'
         for pid in obj._properties:
-            if oid[0] == 'device' and pid in SKIP_DEVICE_PROPS:
+            if is_dev and pid in SKIP_DEVICE_PROPS:
                 continue
             try:
-                out[(oid, pid)] = norm(obj.ReadProperty(pid))
+                v = obj.ReadProperty(pid)
+                v = v if v is None or isinstance(v, (int, float, str)) else norm(v)
             except Exception as e:
-                out[(oid, pid)] = ('raises', type(e).__name__)
+                v = ('raises', type(e).__name__)
+            out.append(((oid, pid), v))
     return out
 
 
 def same(a, b):
     """deep equality that never leaves the decision to identity"""
+    if a is b:
+        return True
     if isinstance(a, (list, tuple)) and isinstance(b, (list, tuple)):
         if len(a) != len(b):
             return False
@@ -164,20 +170,38 @@ def same(a, b):
     if isinstance(a, (list, tuple)) or isinstance(b, (list, tuple)):
         return False
     if a is None or b is None:
-        return a is b
+        return False
     return bool(a == b)
 
 
 def changed_keys(before, after, ignore=()):
+    """labels whose value differs between two pictures (lists of (label, value) or str-keyed dicts)"""
+    if isinstance(before, dict):
+        out = []
+        for k in before:
+            if k in ignore:
+                continue
+            if k not in after or not same(before[k], after[k]):
+                out.append(k)
+        for k in after:
+            if k not in before and k not in ignore:
+                out.append(k)
+        return out
+    if len(before) != len(after):
+        return ['(the set of properties)']
     out = []
-    for k in before:
-        if k in ignore:
+    for (k, x), (k2, y) in zip(before, after):
+        if x is y:
             continue
-        if k not in after or not same(before[k], after[k]):
-            out.append(k)
-    for k in after:
-        if k not in before and k not in ignore:
-            out.append(k)
+        if k != k2:
+            return ['(the set of properties)']
+        if not same(x, y):
+            skip = False
+            for g in ignore:
+                if g == k:
+                    skip = True
+            if not skip:
+                out.append(k)
     return out
 
 
@@ -439,11 +463,20 @@ def check_rpm(d, out, store, specs, via, skip=()):
 
 
 # ---------------------------------------------------------------- drawing requests
+CORE = {'S': ['presentValue', 'description', 'units'], 'A': ['controlGroups'], 'L': ['memberOf']}
+
+
 def targets(focus, level):
-    """(object key, property) pairs a request may name"""
+    """(object key, property) pairs a request may name.
+    level -1: the focus object's main properties only; 0: a few properties, an undeclared property, an unknown
+    object; 1: every declared property as well; 2: also a proprietary property number and the value-less propertyList"""
+    if level < 0:
+        return [(focus, n) for n in CORE[focus]]
     names = [s.name for s in SCHEMA[focus][1] if s.name not in ('objectIdentifier', 'objectType', 'objectName')]
     if focus == 'S' and level == 0:
         names = ['presentValue', 'description', 'units', 'deviceType']
+    if focus == 'A' and level == 0:
+        names = ['controlGroups', 'stateText']
     out = [(focus, n) for n in names]
     out.append((focus, 'objectName'))
     out.append((focus, 'vendorName'))           # a standard property the object does not have
@@ -480,7 +513,7 @@ def draw_index(d, i, spec, level):
         return c, d.int(1, 5, 'index%d' % i)
     if c == 'small':
         return c, d.int(0, 5, 'index%d' % i)
-    return c, d.int(2 ** 24, HUGE, 'index%d' % i)
+    return c, HUGE      # concrete: a symbolic 4-octet index through two codecs costs 15 s of solver time per path
 
 
 def draw_scalar(d, i, kind, vhi, tag=''):
@@ -583,14 +616,22 @@ def step_read(d, i, env, focus, level):
     d.note(**{'step%d' % i: ['read', tname(okey, pname), idx, brief(out)]})
 
 
-def step_write(d, i, env, focus, level, kinds, vhi, nwrong, follow):
+def step_write(d, i, env, focus, level, kinds, vhi, nwrong, follow, prio_mode):
     w, lan, dev, client, objs, store = env
     okey, pname = d.pick(targets(focus, level), 'target%d' % i)
     spec = spec_of(okey, pname)
     icls, idx = draw_index(d, i, spec, level)
-    kind = d.pick(kinds, 'value_kind%d' % i) if spec is not None else 'right'
+    if spec is None or (icls != 'none' and not spec.is_array):
+        kind = 'right'      # refused whatever the value is
+    else:
+        kind = d.pick(kinds, 'value_kind%d' % i)
     value, fits, arity_ok, content, what = draw_value(d, i, spec, icls, kind, vhi, nwrong)
-    prio = d.int(0, 16, 'priority%d' % i)
+    if prio_mode == 'both':
+        prio = d.int(0, 16, 'priority%d' % i)
+    elif prio_mode == 'sym':
+        prio = d.int(1, 16, 'priority%d' % i)
+    else:
+        prio = 0
     req = WritePropertyRequest(objectIdentifier=OBJ_ID[okey], propertyIdentifier=pname, propertyValue=value)
     if idx is not None:
         req.propertyArrayIndex = idx
@@ -672,7 +713,9 @@ def step_write(d, i, env, focus, level, kinds, vhi, nwrong, follow):
 def step_rpm(d, i, env, focus, level, nrefs):
     w, lan, dev, client, objs, store = env
     tg = targets(focus, level)
-    choices = [(focus, s) for s in SELECTORS] + tg + [(UNKNOWN_OBJECT, 'all')]
+    choices = [(focus, s) for s in SELECTORS] + tg
+    if level >= 0:
+        choices.append((UNKNOWN_OBJECT, 'all'))
     refs_by_obj = {}
     order = []
     for k in range(nrefs):
@@ -687,8 +730,8 @@ def step_rpm(d, i, env, focus, level, nrefs):
         refs_by_obj[okey].append((pname, idx))
     specs = [(okey, refs_by_obj[okey]) for okey in order]
     # one more object in the same request (concrete: costs no paths)
-    other = 'L' if focus != 'L' else 'S'
-    specs.append((other, [('all', None)]))
+    other = 'L' if focus != 'L' else 'A'
+    specs.append((other, [('objectName', None), ('optional', None)]))
     before = snapshot(dev)
     out = rpm(w, lan, dev, client, specs)
     check_rpm(d, out, store, specs, 'ReadPropertyMultiple')
@@ -711,7 +754,7 @@ def step_rpm(d, i, env, focus, level, nrefs):
       outside="more requests per sequence; other objects than the three; segmented answers; WritePropertyMultiple "
               "(the library has no handler); constructed property values (object level: prop_obj)",
       stubs=STUBS)
-def rw_wire(d, focus, ops, kinds=('right',), level=1, vhi=255, nwrong=1, follow=2, nrefs=1):
+def rw_wire(d, focus, ops, kinds=('right',), level=1, vhi=255, nwrong=1, follow=2, nrefs=1, prio='both'):
     init = dict(presentValue=7, controlGroups=[10, 20], memberOf=[5, 6])
     if focus == 'S':
         init['presentValue'] = d.int(0, vhi, 'initial_value')
@@ -730,7 +773,7 @@ def rw_wire(d, focus, ops, kinds=('right',), level=1, vhi=255, nwrong=1, follow=
             if op == 'R':
                 step_read(d, i, env, focus, level)
             elif op == 'W':
-                step_write(d, i, env, focus, level, list(kinds), vhi, nwrong, follow)
+                step_write(d, i, env, focus, level, list(kinds), vhi, nwrong, follow, prio)
             else:
                 step_rpm(d, i, env, focus, level, nrefs)
     except Diverged:
@@ -738,10 +781,473 @@ def rw_wire(d, focus, ops, kinds=('right',), level=1, vhi=255, nwrong=1, follow=
     d.reach()
 
 
+# ================================================================ object level, every registered type
+FAMILY = (ExecutionError, RejectException)
+P_STRINGS = ['', 'kW']
+P_REALS = [0.0, -12.5]
+
+
+def std_types():
+    """the registered standard object types (vendor 0), by name"""
+    return sorted((str(t) for (t, v) in bobj.registered_object_types if v == 0))
+
+
+def std_class(otype):
+    for (t, v), cls in bobj.registered_object_types.items():
+        if v == 0 and str(t) == otype:
+            return cls
+    raise KeyError(otype)
+
+
+def gen_kind(dt):
+    """which generator serves a datatype (None = none: the property is skipped and counted)"""
+    if issubclass(dt, AnyAtomic):
+        return 'anyatomic'
+    for k, c in (('bool', Boolean), ('unsigned', Unsigned), ('integer', Integer), ('real', Real), ('double', Double),
+                 ('octets', OctetString), ('string', CharacterString), ('bits', BitString), ('enum', Enumerated),
+                 ('date', Date), ('time', Time), ('objid', ObjectIdentifier)):
+        if issubclass(dt, c):
+            return k
+    if issubclass(dt, (Sequence, Choice)):
+        return 'constructed'
+    return None
+
+
+def prop_kind(dt):
+    """-> (shape, element generator kind) with shape scalar / array / list; None = skipped"""
+    if issubclass(dt, Array):
+        k = gen_kind(dt.subtype)
+        return ('array', k) if k else None
+    if issubclass(dt, List):
+        k = gen_kind(dt.subtype)
+        return ('list', k) if k else None
+    k = gen_kind(dt)
+    return ('scalar', k) if k else None
+
+
+class _Other(Sequence):
+    """a constructed value no property takes"""
+    sequenceElements = []
+
+
+def gen_right(d, dt, k, nm, sym=True):
+    """a python value of datatype dt as the application hands it to WriteProperty"""
+    if k == 'bool':
+        return d.bool(nm) if sym else True
+    if k == 'unsigned':
+        lo = dt._low_limit
+        hi = dt._high_limit if dt._high_limit is not None else 2 ** 32 - 1
+        return d.int(lo, hi, nm) if sym else lo + 1
+    if k == 'integer':
+        return d.int(-2 ** 31, 2 ** 31 - 1, nm) if sym else -3
+    if k == 'real' or k == 'double':
+        return d.pick(P_REALS, nm) if sym else 2.5
+    if k == 'octets':
+        return d.bytes(0, 2, nm) if sym else b'\x01'
+    if k == 'string':
+        return d.pick(P_STRINGS, nm) if sym else 'n'
+    if k == 'bits':
+        n = dt.bitLen if dt.bitLen else 3
+        # is_valid forks on every symbolic bit: one symbolic bit, the others concrete
+        return ([d.int(0, 1, nm + '_0')] + [(j % 2) for j in range(1, n)]) if sym else [1] * n
+    if k == 'enum':
+        names = sorted(dt.enumerations)
+        choices = [4000]                        # a number outside the table (proprietary range)
+        if names:
+            choices = [names[0], dt.enumerations[names[-1]], 4000]
+        return d.pick(choices, nm) if sym else choices[0]
+    if k == 'date' or k == 'time':
+        return tuple(d.int(0, 255, nm + '_%d' % j) for j in range(4)) if sym else (1, 2, 3, 4)
+    if k == 'objid':
+        return ('analogValue', d.int(0, 4194302, nm)) if sym else ('analogValue', 9)
+    if k == 'anyatomic':
+        return d.pick([Real(1.5), Unsigned(3), CharacterString('x')], nm) if sym else Unsigned(4)
+    if k == 'constructed':
+        return dt()
+    raise AssertionError(k)
+
+
+def gen_wrong(k):
+    """a value of a clearly different datatype"""
+    if k in ('bool', 'real', 'double', 'date', 'time', 'objid', 'bits'):
+        return 'x'
+    if k in ('unsigned', 'integer', 'enum'):
+        return 1.5
+    if k in ('octets', 'string'):
+        return 5
+    if k == 'anyatomic':
+        return 5
+    if k == 'constructed':
+        return _Other()
+    raise AssertionError(k)
+
+
+def veq(a, b):
+    """written value == value read"""
+    if isinstance(a, (Sequence, Choice, Atomic)) or isinstance(b, (Sequence, Choice, Atomic)):
+        return a is b
+    if isinstance(a, (list, tuple)) or isinstance(b, (list, tuple)):
+        if not isinstance(a, (list, tuple)) or not isinstance(b, (list, tuple)) or len(a) != len(b):
+            return False
+        for x, y in zip(a, b):
+            if not veq(x, y):
+                return False
+        return True
+    if isinstance(a, (bytes, bytearray)) and isinstance(b, (bytes, bytearray)):
+        return bytes(a) == bytes(b)
+    if type(a) is float or type(b) is float or isinstance(a, str) or isinstance(b, str):
+        return type(a) is type(b) and a == b
+    return bool(a == b)
+
+
+def elements_of(v):
+    """stored array / list value -> python list of its elements, None when it is not one"""
+    if isinstance(v, Array):
+        if not isinstance(v.value, list) or len(v.value) < 1 or v.value[0] != len(v.value) - 1:
+            return None
+        return list(v.value[1:])
+    if isinstance(v, List):
+        return list(v.value) if isinstance(v.value, list) else None
+    if isinstance(v, list):
+        return list(v)
+    return None
+
+
+def values_picture(obj):
+    """deep picture of the whole _values dictionary (containers by content, leaves as they are)"""
+    out = {}
+    for k, v in obj._values.items():
+        out[k] = v if v is None or isinstance(v, (int, float, str)) else norm(v)
+    return out
+
+
+def classify(e):
+    """exception of a refused write -> ('error', class, code) / ('reject', reason) / ('other', type name)"""
+    if isinstance(e, ExecutionError):
+        return ('error', e.errorClass, e.errorCode)
+    if isinstance(e, RejectException):
+        return ('reject', e.rejectReason)
+    return ('other', type(e).__name__)
+
+
+def refusal_matches(c, cause):
+    if cause == 'read-only':
+        return c == ('error', 'property', 'writeAccessDenied')
+    if cause == 'not-an-array':
+        return c in (('error', 'property', 'propertyIsNotAnArray'), ('error', 'property', 'invalidArrayIndex'))
+    if cause == 'bad-array-index':
+        return c == ('error', 'property', 'invalidArrayIndex')
+    if cause == 'wrong-datatype':
+        return c in (('reject', 'invalidParameterDatatype'), ('reject', 'invalidTag'),
+                     ('error', 'property', 'invalidDataType'), ('error', 'property', 'datatypeNotSupported'),
+                     ('error', 'services', 'invalidParameterDatatype'))
+    if cause == 'fixed-length':
+        return c[0] in ('error', 'reject')
+    raise AssertionError(cause)
+
+
+def check_array_reads(d, obj, pid, want, sig):
+    """index 0 <-> length, 1..n <-> elements, anything else <-> invalid-array-index"""
+    n = len(want)
+    try:
+        got = obj.ReadProperty(pid, 0)
+    except Exception as e:
+        d.flag(True, "array-index-0-not-length", raised=type(e).__name__, **sig)
+        return
+    if not veq(got, n):
+        d.flag(True, "array-index-0-not-length", got=got, length=n, **sig)
+    for k in range(n):
+        try:
+            got = obj.ReadProperty(pid, k + 1)
+        except Exception as e:
+            d.flag(True, "array-element-read-fails", element=k + 1, length=n, raised=type(e).__name__, **sig)
+            continue
+        if not veq(got, want[k]):
+            d.flag(True, "array-element-read-differs", element=k + 1, length=n, got=got, want=want[k], **sig)
+    for bad in (n + 1, HUGE):
+        try:
+            got = obj.ReadProperty(pid, bad)
+        except ExecutionError as e:
+            if (e.errorClass, e.errorCode) != ('property', 'invalidArrayIndex'):
+                d.flag(True, "array-bad-index-other-error", index=bad, length=n, got=[e.errorClass, e.errorCode], **sig)
+            continue
+        except Exception as e:
+            d.flag(True, "array-bad-index-other-error", index=bad, length=n, got=type(e).__name__, **sig)
+            continue
+        d.flag(True, "array-bad-index-answered", index=bad, length=n, got=got, **sig)
+    whole = elements_of(obj.ReadProperty(pid))
+    if whole is None or not veq(whole, want):
+        d.flag(True, "array-whole-read-differs", length=n, **sig)
+
+
+@meta(bounds="one default-constructed object of a registered standard type (the instance's `otypes`); property symbolic over "
+             "every property of the type whose datatype has a generator (Boolean, Unsigned*, Integer, Real, Double, "
+             "OctetString, CharacterString, BitString*, Enumerated*, Date, Time, ObjectIdentifier, any-atomic, constructed "
+             "types by their default instance; ArrayOf / ListOf of those), others skipped and counted in the notes; the "
+             "property as declared (read-only ones: the write is refused) and - symbolic selector - as a writable property "
+             "of the same datatype added with Object.add_property; arrays start with 2 elements (fixed-length ones with "
+             "their length), lists with 2; ONE WriteProperty(direct=False): value of the datatype (contents symbolic: "
+             "integers over the datatype's whole range, octet strings 0..2 octets, bits, date/time fields 0..255; strings, "
+             "reals, enumeration values from 2-3 representatives), of another datatype, a sequence holding one element of "
+             "another datatype (position symbolic); array index none / 0 (new length 0..3) / 1..n+1 symbolic / 2^32-1; "
+             "priority none or 1..16 symbolic; then reads of the property, and for arrays of every index class",
+      outside="objectIdentifier (prop_oid); a value that is not a sequence at all written to a whole array (prop_array_scalar); "
+              "constructed values other than default instances; more than one write; commandable local objects (C17)",
+      stubs=[])
+def prop_obj(d, otypes, variant="both", scalar_to_array=False, only=None):
+    otype = d.pick(otypes, 'object_type')
+    cls = std_class(otype)
+    pids, skipped = [], []
+    for pid in sorted(cls._properties):
+        if pid == 'objectIdentifier' and only is None:
+            continue
+        if only is not None and pid not in only:
+            continue
+        if prop_kind(cls._properties[pid].datatype) is None:
+            skipped.append(pid)
+        else:
+            pids.append(pid)
+    d.note(object_type=otype, properties=len(pids), skipped_no_generator=skipped)
+    if not pids:
+        d.reach()
+        return
+    pid = d.pick(pids, 'property')
+    prop = cls._properties[pid]
+    dt = prop.datatype
+    shape, k = prop_kind(dt)
+    if scalar_to_array and shape != 'array':
+        d.reach()
+        return
+    obj = cls()
+    sig = dict(object_type=otype, property=pid, datatype=dt.__name__)
+
+    # ---- read-only as declared: refused, nothing changes
+    declared_writable = bool(prop.mutable)
+    if variant == "declared":
+        as_declared = True
+    elif variant == "writable" or declared_writable:
+        as_declared = declared_writable
+    else:
+        as_declared = d.bool('as_declared')
+    if as_declared and not declared_writable:
+        edt = dt.subtype if shape != 'scalar' else dt
+        v = gen_right(d, edt, k, 'value', sym=False)
+        if shape != 'scalar':
+            v = [v]
+        before = values_picture(obj)
+        try:
+            obj.WriteProperty(pid, v)
+        except Exception as e:
+            c = classify(e)
+            if not refusal_matches(c, 'read-only'):
+                d.flag(True, "read-only-write-refused-with-other-error", got=list(c), **sig)
+        else:
+            d.flag(True, "read-only-property-written", **sig)
+        if changed_keys(before, values_picture(obj)):
+            d.flag(True, "refused-write-changed-state", causes=['read-only'], **sig)
+        d.reach()
+        return
+    if not declared_writable:
+        # the same datatype as a writable property (what an application does to make it writable)
+        obj.add_property(Property(pid, dt, default=prop.default, optional=prop.optional, mutable=True))
+
+    # ---- initial contents of arrays and lists
+    model = None
+    fixed = None
+    if shape == 'array':
+        fixed = dt.fixed_length
+        n0 = fixed if fixed is not None else 2
+        model = [gen_right(d, dt.subtype, k, 'initial_%d' % j, sym=(j == 0 and k in ('unsigned', 'integer', 'bool')))
+                 for j in range(n0)]
+        obj._values[pid] = dt(list(model))
+    elif shape == 'list':
+        model = [gen_right(d, dt.subtype, k, 'initial_%d' % j, sym=False) for j in range(2)]
+        obj._values[pid] = list(model)
+
+    # ---- the write
+    if scalar_to_array:
+        icls = 'none'
+    elif shape == 'array':
+        icls = d.pick(['none', 'zero', 'elem', 'huge'], 'index_class')
+    else:
+        icls = d.pick(['none', 'small'], 'index_class')
+    n = len(model) if shape == 'array' else 0
+    if icls == 'none':
+        idx = None
+    elif icls == 'zero':
+        idx = 0
+    elif icls == 'elem':
+        idx = d.int(1, n + 1, 'index')
+    elif icls == 'small':
+        idx = d.int(0, 3, 'index')
+    else:
+        idx = HUGE
+    causes = []
+    if idx is not None and shape != 'array':
+        causes.append('not-an-array')
+        causes.append('wrong-datatype')     # index 0 asks for a length, the others for an element: the value is neither
+    elif icls == 'huge':
+        causes.append('bad-array-index')
+    whole = idx is None
+    written = None
+    if scalar_to_array:
+        vk = 'scalar-for-array'
+        value = d.pick([gen_wrong(k), ()], 'scalar_value')      # () is what a Null arrives as
+        causes.append('wrong-datatype')
+    elif shape != 'scalar' and whole:
+        vk = d.pick(['right', 'wrong-element'], 'value_kind')
+        if vk == 'right':
+            ln = fixed if fixed is not None else d.index(3, 'length')
+            value = [gen_right(d, dt.subtype, k, 'value_%d' % j, sym=(j == 0)) for j in range(ln)]
+            written = list(value)
+        else:
+            ln = fixed if fixed is not None else 2
+            pos = d.index(ln, 'wrong_position')
+            value = [gen_wrong(k) if j == pos else gen_right(d, dt.subtype, k, 'value_%d' % j, sym=False) for j in range(ln)]
+            causes.append('wrong-datatype')
+    elif icls == 'zero':
+        vk = d.pick(['right', 'wrong'], 'value_kind')
+        if vk == 'right':
+            value = d.index(4, 'new_length')        # concrete: the library allocates that many elements
+            if fixed is not None and value != fixed:
+                causes.append('fixed-length')
+        else:
+            value = 'x'
+            causes.append('wrong-datatype')
+    else:
+        edt = dt.subtype if shape == 'array' else dt
+        ek = k
+        if shape == 'list':         # an index on a list: refused whatever the value
+            vk = 'right'
+            value = list(model)
+        elif idx is not None and shape == 'scalar':
+            vk = 'right'
+            value = gen_right(d, edt, ek, 'value', sym=False)
+        else:
+            vk = d.pick(['right', 'wrong'], 'value_kind')
+            if vk == 'right':
+                value = gen_right(d, edt, ek, 'value')
+                written = value
+            else:
+                value = gen_wrong(ek)
+                causes.append('wrong-datatype')
+    if vk == 'right' and idx is None:
+        prio = d.int(0, 16, 'priority')
+        priority = None if prio == 0 else prio
+    else:
+        priority = d.int(1, 16, 'priority')
+    before = values_picture(obj)
+    refused = None
+    try:
+        obj.WriteProperty(pid, value, arrayIndex=idx, priority=priority)
+    except Exception as e:
+        refused = e
+    after = values_picture(obj)
+    sig.update(index_class=icls, value_kind=vk)
+    d.note(index_class=icls, value_kind=vk, refused=None if refused is None else list(classify(refused)))
+
+    if refused is not None:
+        c = classify(refused)
+        # element index n+1 (symbolic 1..n+1) is a bad index as well
+        bad_elem = icls == 'elem' and idx == n + 1
+        all_causes = causes + (['bad-array-index'] if bad_elem else [])
+        if not all_causes:
+            d.flag(True, "valid-write-refused", got=list(c), **sig)
+        elif c[0] == 'other':
+            d.flag(True, "refusal-outside-documented-family", got=list(c), causes=all_causes, **sig)
+        else:
+            ok = False
+            for cause in all_causes:
+                if refusal_matches(c, cause):
+                    ok = True
+            if not ok:
+                d.flag(True, "write-refused-with-other-error", got=list(c), causes=all_causes, **sig)
+        if changed_keys(before, after):
+            d.flag(True, "refused-write-changed-state", causes=all_causes, got=list(c), **sig)
+        elif shape == 'array':
+            check_array_reads(d, obj, pid, model, sig)
+        d.reach()
+        return
+
+    # ---- accepted
+    bad_elem = icls == 'elem' and idx == n + 1
+    if bad_elem:
+        causes = causes + ['bad-array-index']
+    hard = [c for c in causes if c != 'fixed-length']
+    if hard:
+        d.flag(True, "refusable-write-accepted", causes=hard, **sig)
+        d.reach()
+        return
+    if changed_keys(before, after, ignore=(pid,)):
+        d.flag(True, "write-changed-other-properties", **sig)
+    if shape == 'scalar':
+        try:
+            got = obj.ReadProperty(pid)
+        except Exception as e:
+            d.flag(True, "read-after-accepted-write-fails", raised=type(e).__name__, **sig)
+        else:
+            if not veq(got, written):
+                d.flag(True, "read-after-write-differs", got=got, want=written, **sig)
+        d.reach()
+        return
+    if shape == 'list':
+        got = elements_of(obj.ReadProperty(pid))
+        if got is None or not veq(got, written):
+            d.flag(True, "read-after-write-differs", **sig)
+        d.reach()
+        return
+    # arrays
+    if whole:
+        model = written
+    elif icls == 'zero':
+        if 'fixed-length' in causes:
+            pass                # accepted although the length is fixed: must then have had no effect or the asked one
+        cur = elements_of(obj.ReadProperty(pid))
+        if cur is None or (len(cur) != value and not (fixed is not None and len(cur) == fixed)):
+            d.flag(True, "array-length-write-not-applied", want=value, got=None if cur is None else len(cur), **sig)
+            d.reach()
+            return
+        keep = min(len(model), len(cur))
+        if not veq(cur[:keep], model[:keep]):
+            d.flag(True, "array-length-write-changed-elements", **sig)
+        model = list(model[:keep]) + list(cur[keep:])       # what new elements hold is the library's choice
+    else:
+        model = list(model)
+        for j in range(len(model)):
+            if idx == j + 1:
+                model[j] = written
+    check_array_reads(d, obj, pid, model, sig)
+    d.reach()
+
+
+QUICK_TYPES = ['analogValue', 'binaryOutput', 'multiStateValue', 'channel', 'loadControl', 'schedule',
+               'notificationClass', 'device']
+
+
 def instances(tier):
     q = tier == "quick"
     out = []
+    B = 400 if q else 1500
+    # ---- one request, every target / index class / value kind
     for focus in ('S', 'A', 'L'):
-        out.append(Inst(rw_wire, dict(focus=focus, ops=['W'], level=1, kinds=['right', 'wrong']), budget=300))
-        out.append(Inst(rw_wire, dict(focus=focus, ops=['M'], level=1, nrefs=1), budget=300))
+        out.append(Inst(rw_wire, dict(focus=focus, ops=['R'], level=1), budget=B))
+        out.append(Inst(rw_wire, dict(focus=focus, ops=['M'], level=1, nrefs=1), budget=B))
+    out.append(Inst(rw_wire, dict(focus='S', ops=['W'], level=1, kinds=['right', 'wrong', 'null'], prio='both'), budget=B))
+    out.append(Inst(rw_wire, dict(focus='A', ops=['W'], level=1, kinds=['right', 'wrong'], prio='sym'), budget=B))
+    out.append(Inst(rw_wire, dict(focus='L', ops=['W'], level=1, kinds=['right', 'wrong', 'null'], prio='sym'), budget=B))
+    out.append(Inst(rw_wire, dict(focus='A', ops=['W'], level=0, kinds=['null'], prio='none'), budget=B))
+    out.append(Inst(rw_wire, dict(focus='S', ops=['W'], level=0, kinds=['multi', 'empty'], prio='none'), budget=B))
+    # ---- two requests: a write (every index class, values of the right datatype) and then a read of any kind
+    out.append(Inst(rw_wire, dict(focus='A', ops=['W', 'R'], level=-1, kinds=['right'], prio='none', follow=0), budget=B))
+    out.append(Inst(rw_wire, dict(focus='A', ops=['W', 'M'], level=-1, kinds=['right'], prio='none', follow=0), budget=B))
+    out.append(Inst(rw_wire, dict(focus='S', ops=['W', 'RM'], level=-1, kinds=['right'], prio='none', follow=0), budget=B))
+    out.append(Inst(rw_wire, dict(focus='L', ops=['W', 'RM'], level=-1, kinds=['right'], prio='none', follow=0), budget=B))
+    # ---- object level
+    types = QUICK_TYPES if q else std_types()
+    for t in types:
+        out.append(Inst(prop_obj, dict(otypes=[t]), budget=120 if q else 600, label=t))
+    out.append(Inst(prop_obj, dict(otypes=types, scalar_to_array=True, variant="writable"), budget=200 if q else 900,
+                    label="array-takes-non-sequence"))
+    out.append(Inst(prop_obj, dict(otypes=types, only=['objectIdentifier'], variant="declared"), budget=100 if q else 300,
+                    label="objectIdentifier"))
     return out
